@@ -33,6 +33,63 @@ CHECKS.update({
    "Trusted: reflection-based driver; values are distinct so an element identifies the operation that stored it.",
    "DESIGN.md 5/C18"),
 })
+CHECKS.update({
+ "C02": ("pubmon", "exploration",
+   "reference-model monitor at the Transport/Database boundary: recipient set and dereferences vs a graph model of delivery",
+   "The real outbox delivery (client POST and Send) runs against seeded random federation graphs in the simulated network; the single BatchDeliver recipient list, every Dereference argument and the outcome are compared with an independent model (addressing ids, stored inboxes, recursive collection expansion to the depth limit, skipping of unreachable / garbled / unknown-type documents, de-duplication, removal of Public and of the sender's inbox).",
+   "Trusted: internal/sim (byte-level Database, recording Transport) and the JSON-level model in cmd/pubmon/c02.go. Graph size <= 10 actors + 6 collections; stored inboxes only for addressed non-member actors.",
+   "DESIGN.md 5/C02"),
+ "C03": ("pubmon", "exploration",
+   "trace-specification monitor over payload bytes: no bto/bcc through 'object', hidden recipients still served",
+   "Every payload handed to Transport.BatchDeliver/Deliver for outbox-originated activities (client POST, Send, automatic Accept/Reject) and every body served by the GET handler is parsed and walked through 'object'; the generator covers every outbox-acceptable activity and bare object type with random mixtures of the five addressing properties on the activity and on 1..3 embedded objects, under Social / Federating / both.",
+   "Trusted: internal/sim. Hidden fields under properties other than 'object' are not part of the statement and not judged.",
+   "DESIGN.md 5/C03"),
+ "C04": ("pubmon", "fault_enumeration",
+   "reference-model monitor: byte-level store delta, deliveries and callback order vs a per-type model; single-fault variants",
+   "Inbox POSTs of each handled type with 1..3 objects/targets/actors (IRI or embedded, owned or not, ordered or unordered, likes/shares absent / Collection / OrderedCollection), OnFollow in three modes and three callback modes are executed by the real code; the store after the request, the automatic Accept/Reject (shape, fresh id, recipients), writes to unowned ids, override behaviour and the position of the wrapped callback are compared with a model; a subset is repeated under every single injected fault.",
+   "Trusted: internal/sim and the model in cmd/pubmon/c04.go; collections compared with 'new entries first, order among new free'.",
+   "DESIGN.md 5/C04"),
+ "C05": ("pubmon", "fault_enumeration",
+   "trace specification (identify -> store -> outbox -> deliver) + set-algebra model of wrapping and Create normalisation; single-fault variants",
+   "Client POSTs and Sends of bare objects of every non-activity type, Creates with overlapping recipient/attribution sets, every other activity type, sequences of 1..8 posts to one and two outboxes, and every single-fault variant of a subset. The log is judged for ordering (nothing delivered before Create+SetOutbox, nothing delivered after a failed persistence step, id prepended exactly once, Location/Send id equal to the NewID-issued id) and the stored values by a set model.",
+   "Trusted: internal/sim; recipient sets compared as sets of ids; a Create without actor judged for ordering only.",
+   "DESIGN.md 5/C05"),
+ "C06": ("pubmon", "exploration",
+   "reference-model monitor of the four authority checks: store delta, Blocked argument, response",
+   "Inbox POSTs over the host-relation matrix for Update/Delete, Accept/Follow graphs against stored-Follow variants (with forged remote copies), Undo actor-set relations and blocked/embedded actor combinations are executed; whether anything changed in the byte-level store, what Blocked was asked, and the response are compared with the model.",
+   "Trusted: internal/sim. Case-only host differences accept either outcome.",
+   "DESIGN.md 5/C06"),
+ "C07": ("pubmon", "exploration",
+   "trace-specification monitor: per-request event ordering over the full request product",
+   "The product endpoints x protocol flags x authentication outcome x block outcome x method x 12 header variants x bodies is executed (thinned in quick, full in thorough); the per-request event log must show no Database/Transport/side-effect-callback event before successful authentication and block check, no event at all for non-ActivityPub or disabled-protocol requests.",
+   "Trusted: internal/sim event log. Header variants outside the documented media types judged by consistency only.",
+   "DESIGN.md 5/C07"),
+ "C09": ("pubmon", "fault_enumeration",
+   "online held-set automaton over Database.Lock/Unlock per request, under enumeration of single (thorough: paired) faults",
+   "A corpus covering every default side-effect path of both protocols is run fault-free and once per fallible call (Database, Transport, NewTransport, protocol and callback invocations) made to fail; a per-request automaton checks balance, no re-entry, no unlock of an unacquired lock, no Database access without a lock and no leak at return.",
+   "Trusted: internal/sim fault injector and request ids carried in the context. Known findings (re-entrant locking in InboxForwarding) are listed in known_findings.json.",
+   "DESIGN.md 5/C09"),
+ "C10": ("pubmon", "fault_enumeration",
+   "counting ResponseWriter + status model over C07's product, C09's fault variants and the id / required-member families",
+   "Every request of C07's product, every single-fault variant of the corpus and the 'usable id' and 'required object/target' families are executed with a counting ResponseWriter; the (handled, error, writes) triple must be one of the three legal outcomes and the status must be the documented one (405/400/403/200/410/201+Location).",
+   "Trusted: internal/sim; a 401 written by the simulated application counts as the application's.",
+   "DESIGN.md 5/C10"),
+ "C16": ("pubmon", "exploration",
+   "reference-model monitor: byte-level store delta, status and deliveries vs a per-type model of the client side effects",
+   "Client POSTs of Update (random partial updates incl. nulls), Delete (Tombstone model with virtual clock), Add/Remove (owned / foreign / ordered / unordered / duplicates), Like and Block, and each with object or target absent or empty, are executed and the resulting store compared with the model.",
+   "Trusted: internal/sim; nulls placed in the activity's object.",
+   "DESIGN.md 5/C16"),
+ "C17": ("pubmon", "exploration",
+   "reference-model monitor + history check: forwarding presence/recipients/payload and exactly-once Create over repeated deliveries",
+   "Random inbox activities with mixed addressing and reply chains (embedded and dereferenced, depth 0..5, owned id at a random level) are delivered 1..3 times to one or two inboxes under depth limits 1..4 and three filters; the forwarding BatchDeliver is compared with a model of the three conditions, and the activity must be created exactly once over the history.",
+   "Trusted: internal/sim; recipients judged as the set of member ids handed to the transport.",
+   "DESIGN.md 5/C17"),
+ "C20": ("pubmon", "exploration",
+   "reference-model monitor on the ResponseWriter: body, status, Content-Type, Date, Digest vs independent computations",
+   "GetInbox/GetOutbox with random pages (0..30 items, duplicates anywhere) and the handler with stored values of every vocabulary type (bto/bcc through 'object', Tombstone, missing) under clock instants across years 1..9999; the body is compared with the model's JSON, Date with an independent IMF-fixdate formatter, Digest with a SHA-256 of the bytes actually written.",
+   "Trusted: internal/sim ResponseWriter; pages in canonical lexical form.",
+   "DESIGN.md 5/C20"),
+})
 ALL = ["C%02d" % i for i in range(1, 21)]
 NOT_APPLICABLE = {}
 PENDING_REASON = "check not built yet in this round of work (runtime monitor planned, see DESIGN.md section 5); not claimed until it exists"
